@@ -1,12 +1,14 @@
 #!/bin/bash
-# usage: mutant-test.sh <patch.diff> <Cxx> [tier]  - applies a seeded change to /repo, runs the check, reverts.
+# usage: mutant-test.sh <patch.diff> <Cxx> [tier]
+# Applies a seeded change to a scratch copy of /repo (outside /repo and /verif), runs the
+# property's check against that copy (VERIF_REPO), and removes the copy. /repo is not touched.
 set -u
-patch="$1"; prop="$2"; tier="${3:-quick}"
-cd /repo || exit 2
-if [ -n "$(git status --porcelain)" ]; then echo "repo dirty"; exit 2; fi
-git apply --3way "$patch" 2>/dev/null || git apply "$patch" || { echo "PATCH DOES NOT APPLY"; git checkout -- . ; git reset -q; exit 3; }
-git reset -q
-( cd /verif && VERIF_BUDGET_S="${VERIF_BUDGET_S:-70}" ./check "$prop" "$tier" 2>&1 | grep -E "VIOLATION|kind=|KNOWN|INFRA|^property=" )
-rc=${PIPESTATUS[0]}
-git checkout -- . ; git clean -fdq -- . 2>/dev/null
-echo "exit=$rc"
+patch="$(readlink -f "$1")"; prop="$2"; tier="${3:-quick}"
+scratch=$(mktemp -d /dev/shm/mrepo.XXXXXX)
+trap 'rm -rf "$scratch"' EXIT
+cp -r /repo/. "$scratch/" || exit 2
+cd "$scratch" || exit 2
+git checkout -q -- . 2>/dev/null
+git apply --3way "$patch" 2>/dev/null || git apply "$patch" || { echo "PATCH DOES NOT APPLY"; exit 3; }
+( cd /verif && VERIF_OUT="${VERIF_OUT:-/dev/shm/mut-out}" VERIF_REPO="$scratch" VERIF_BIN_DIR="$scratch/.vbin" VERIF_BUDGET_S="${VERIF_BUDGET_S:-70}" ./check "$prop" "$tier" 2>&1 | grep -E "VIOLATION|kind=|KNOWN|INFRA|^property=" )
+exit 0
